@@ -13,6 +13,7 @@ from typing import Any
 
 from ..draw import Draw
 from ..ref import plain as P
+from ..ref import rx
 from ..ref import splice as S
 from ..ref.schema import RefSchema
 from .docs import DocGen
@@ -116,6 +117,10 @@ def rand_slice(R: Draw, g: DocGen, size: str = "tiny") -> dict:
         h = hollow_slice(R, rs, src)
         if h is not None:
             return h
+    if R.bool(0.06):
+        h = retyped_open_slice(R, g, src)
+        if h is not None:
+            return h
     for _ in range(4):
         a = R.int(0, len(T))
         if deep and R.bool(0.6):
@@ -156,6 +161,38 @@ def hollow_slice(R: Draw, rs: RefSchema, doc: dict) -> dict | None:
         inner = [P.mk(nd["t"], copy.deepcopy(nd["a"]), inner, copy.deepcopy(nd["m"]))]
     k = len(chain)
     return {"c": inner, "os": k, "oe": k if R.bool(0.7) else k - 1}
+
+
+def retyped_open_slice(R: Draw, g: DocGen, doc: dict) -> dict | None:
+    """ONE node open on both sides (what Node.slice never yields: it takes explicit openness or include_parents) whose
+    markup differs from the node it will be joined into: another textblock type, or the same type with other
+    attributes.  Joined on both sides, the merged node has to take the document's markup on the left."""
+    import copy
+
+    rs = g.rs
+    tbs = [t for t in rs.node_names if rs.textblock.get(t) and rs.generatable[t]]
+    if not tbs:
+        return None
+    t = R.choice(tbs)
+    text = [P.mk("text", {}, None, g.mark_set(R, t, 0.2), g.text(R))] if "text" in rx.first(rs.content[t]) else []
+    node = P.mk(t, g.attrs(R, "node", t), text)
+    k = 1
+    # optionally nest it in a chain of the source document's containers, open to full depth
+    chain = []
+    cur = doc
+    while R.bool(0.4):
+        kids = [c for c in cur["c"] if c["t"] != "text" and not rs.leaf[c["t"]] and not rs.inline_content[c["t"]]]
+        if not kids:
+            break
+        cur = R.choice(kids)
+        chain.append(cur)
+    for nd in reversed(chain[-2:]):
+        if rs.accepts(nd["t"], [node["t"]]):
+            node = P.mk(nd["t"], copy.deepcopy(nd["a"]), [node])
+            k += 1
+        else:
+            break
+    return {"c": [node], "os": k, "oe": k}
 
 
 def closed_slice(R: Draw, g: DocGen) -> dict:
